@@ -28,6 +28,10 @@ def gen_plan(rng, opts=None):
     job = J.gen_job_plan(rng, nmax=o["nmax"], max_out=o["max_out"], ncomp_max=3, gpu=o["gpu"], p_empty=0.02)
     for t in job["tasks"]:
         t["work_ms"] = rng.choice([0, 0, 0, 1, 20, 300])
+    if job["tasks"] and rng.random() < (0.4 if o["lossy"] else 0.1):
+        # one task that outlasts a whole retry budget (20 x 800 ms): whatever was lost before it started must have been repaired,
+        # or given up on, by the time it ends
+        rng.choice(job["tasks"])["work_ms"] = rng.choice([20_000, 40_000])
     if o.get("blob") and rng.random() < 0.5:
         for t in job["tasks"]:
             t["blob"] = rng.random() < 0.6      # values with a zero-copy custom serde (JobInstance.serdes)
